@@ -62,6 +62,12 @@ AREAS = {
                 'universe (short and full ids), with/without extended header, all 256 type bytes, lifecycles 0-3, payload texts differing in case (text as '
                 'computed by Rust); regex verdicts observed with the same crates on exactly the pattern/haystack pairs of the case',
     },
+    'arg': {
+        'shrink_sep': ';', 'head_sep': ' | ',
+        'rule': '0-5 (thorough 0-11) typed values per payload: bool, u/i 8-64 with extreme values, f32/f64 incl. NaN/inf/-0, UTF-8 and ASCII strings '
+                '(empty, NUL only, no terminator, CR/LF/TAB, non-UTF-8 / non-ASCII bytes, 65535 bytes), raw data 0-5 bytes; both byte orders via '
+                'payload_from_args, host order via the serde serializer; a third of the cases truncated at a random byte, a sixth with one corrupted byte',
+    },
     'dp': {
         'shrink_sep': ';', 'head_sep': None,
         'rule': 'byte streams built from items: well-formed messages (all 32 combinations of the optional header parts, both byte orders, '
@@ -128,6 +134,11 @@ PROPS = {
         'id': 'C12', 'area': 'flt',
         'theorems': ['Props.C12_stream', 'Props.C12_set', 'Props.C12_agree'],
         'n_quick': 3000, 'n_thorough': 100000,
+    },
+    'C18': {
+        'id': 'C18', 'area': 'arg',
+        'theorems': ['Props.C18_roundtrip', 'Props.C18_prefix', 'Props.C18_text', 'Props.C18_consts'],
+        'n_quick': 5000, 'n_thorough': 200000,
     },
     'C05': {
         'id': 'C05', 'area': 'lc',
